@@ -11,7 +11,10 @@ ASSUMPTIONS = [
     "the wires in the connected component of the start under an adjacency relation stated independently from the pin->wire fields "
     "(bounded transitive closure), without duplicates and without raising; hence every member of a net yields the same answer",
     "the same claim for get_hcables(start, selection=ALL) (hierarchical cables of the connected net; every cable of the fixtures has "
-    "one wire); the narrower selections and get_hpins/get_hports are outside this check",
+    "one wire); get_hports is outside this check",
+    "narrower selections: get_hwires(hierarchical pin, INSIDE / OUTSIDE) returns exactly the wire attached on that side of the pin "
+    "(nothing when that side is open), for every hierarchical pin; get_hpins(hierarchical wire) returns exactly the port pins of "
+    "the wire's own instance and the sub-instance pins attached to it, each once",
     "fixtures: 'shared-sub' (a non-leaf definition instanced twice on one net, three levels), 'wire-only' (a cell with two ports "
     "and a net but no children, one level below the top, between two nets of its parent) and, in the thorough tier, 'feed-through' (one inner net on two ports of "
     "a cell that also has a child); deeper hierarchies, buses wider than one bit and the narrower selections are outside this check",
@@ -40,4 +43,11 @@ def jobs(tier):
                             func="trace_job", timeout=3000,
                             args=dict(fixture=fx, tier=tier, only_start=s, only_goal="exactly-the-connected-net", what="hcables",
                                       timeout_ms=400000 if tier == "quick" else 1500000)))
+    for fx in FIX:
+        if fx == "feed-through" and tier == "quick":
+            continue
+        out.append(dict(name="C12/hpins-of-a-wire/%s" % fx, engine="E1/symheap", module="vf.e1.hier_jobs", func="hpins_job",
+                        timeout=3000, args=dict(fixture=fx, tier=tier)))
+        out.append(dict(name="C12/inside-outside-of-a-pin/%s" % fx, engine="E1/symheap", module="vf.e1.hier_jobs",
+                        func="selection_job", timeout=3000, args=dict(fixture=fx, tier=tier)))
     return out
